@@ -86,6 +86,13 @@ class RunModels(Models):
                     from props import c18
                     if c18.pstr(p).endswith("bad.md"):
                         return err(Opaque("anyhow:other"))       # the same with real paths (C18)
+                    # real paths (C18): the path asked for is recorded, the document is found by its file name
+                    c.notes.setdefault("lookups", []).append(c18.pstr(p))
+                    key = {"pre.md": "path:p", "app.md": "path:q", "clipre.md": "path:P", "cliapp.md": "path:Q"}.get(c18.pstr(p).rsplit("/", 1)[-1])
+                    if key is None:
+                        raise Unsupported("find_and_parse(%s) of %r" % (what, c18.pstr(p)))
+                    out.append(c.notes["extra"][key](c))
+                    continue
                 if not isinstance(p, Opaque) or p.what not in c.notes["extra"]:
                     raise Unsupported("find_and_parse(%s) of %r" % (what, p))
                 out.append(c.notes["extra"][p.what](c))
@@ -880,6 +887,31 @@ def native_document_order(names, fs=None):
     return got, {"argv": ["test", "-r", "json"] + names, "exit": r.returncode, "locations": got, "stderr_tail": r.stderr[-200:]}
 
 
+def native_lookups():
+    """real `scrut test sub/doc.md -P setup.md`: the command-line document is the one in the current directory, not the one next to the document"""
+    import json
+    import os
+    import shutil
+    import subprocess
+    import tempfile
+    from common import SCRUT_BIN
+    tmp = tempfile.mkdtemp(prefix="verif-c20l-")
+    try:
+        os.mkdir(os.path.join(tmp, "sub"))
+        block = lambda title, cmd, exp: "# %s\n\n```scrut\n$ %s\n%s\n```\n" % (title, cmd, exp)
+        open(os.path.join(tmp, "setup.md"), "w").write(block("Setup", "echo setup", "setup"))
+        open(os.path.join(tmp, "sub", "setup.md"), "w").write(block("Other", "echo other", "nope"))
+        open(os.path.join(tmp, "sub", "doc.md"), "w").write(block("Document", "echo doc", "nope"))
+        r = subprocess.run([SCRUT_BIN, "test", "-r", "json", "sub/doc.md", "-P", "setup.md"], cwd=tmp, stdout=subprocess.PIPE, stderr=subprocess.PIPE, text=True, timeout=60)
+        try:
+            got = [o.get("title") or o.get("testcase", {}).get("title") for o in json.loads(r.stdout)]
+        except Exception:
+            got = None
+    finally:
+        shutil.rmtree(tmp, ignore_errors=True)
+    return got, {"argv": ["test", "-r", "json", "sub/doc.md", "-P", "setup.md"], "exit": r.returncode, "titles": got, "stderr_tail": r.stderr[-200:]}
+
+
 def shape_sig(docs, cli_pre, cli_app):
     return "%s%s%s" % ("cli-prepend+" if cli_pre else "", "|".join("%s%s%s:%s" % ("pre+" if d.pre else "", d.n, "+app" if d.app else "", d.kind) for d in docs),
                        "+cli-append" if cli_app else "")
@@ -935,6 +967,23 @@ def run(pid, tier):
                           {"kind": "scrut-test-run", "observation": obs, "verdicts": verdicts, "harness": "end-to-end sample"})
     rep.subclaims[-1]["concrete_validation"] = {"inputs": len(sample), "mismatches": bad, "wall_s": round(time.time() - t0, 1),
                                                 "function": "real `scrut test -r json` runs on documents realising sampled executor scripts, judged by the statement"}
+    # where prepend / append documents are looked for (real paths: the C18 machinery)
+    from props import c18
+    hl = c18.h_lookups()
+    hl.models_cls = lambda: c18.EnvModels(prog)
+    resl = e2.run_with_raw(prog, hl, max_witnesses=2)
+    for model, r in resl.raw_witnesses[:2]:
+        got, obs = native_lookups()
+        if got != ["Setup", "Document"]:
+            rep.violation("prepend-append:looked-up-elsewhere", "`scrut test sub/doc.md -P setup.md` (setup.md next to the current directory, another one next to the document) "
+                          "runs %s, expected the named setup.md first, then the document" % got, {"kind": "scrut-test-run", "observation": obs, "harness": hl.name})
+        else:
+            rep.violation("prepend-append:mir-only", "commands::test::Args::run asks for prepend / append documents at %s, expected %s (decided on its MIR with real paths; "
+                          "the end-to-end run with a relative -P behaves)" % (sorted(r.ctx.notes.get("lookups", [])), r.ctx.notes.get("want_lookups")),
+                          {"kind": "mir-only", "harness": hl.name})
+    e2.record(rep, hl, resl, status=("violated" if resl.witnesses else ("undecided" if resl.unsupported else "holds")))
+    for u in resl.unsupported[:3]:
+        rep.undecided.append(u)
     ho = h_document_order(prog)
     reso = e2.run_with_raw(prog, ho, max_witnesses=3)
     for model, r in reso.raw_witnesses[:3]:
